@@ -62,6 +62,15 @@ CHECKS = {
             "alphabet NetEditDef!Ops (drop/reindex/continuous/fuse/select); depth 2 quick, 3 thorough; merge_nets/replace_* "
             "not enumerated; controller targets read from element/element_index attributes",
             "TLC-generated edit histories replayed; reference integrity of every logged state decided by TLC", "§4 C22"),
+    "C27": ("model_checking",
+            "GroupsDef.tla is the abstract set model (membership per group and element type, element existence, index shift, "
+            "in_service) with create/attach/detach/drop_elements/reindex_elements/drop_group/set_group_in|out_of_service as "
+            "pure steps; TLC checks the set laws on the model, every maximal history is replayed on a real net with an "
+            "index-based and a reference-column group, and TLC compares group_element_index, net.group rows, in_service "
+            "sets and group_res_p_mw (member powers are powers of two, so the sum identifies the set) after EVERY step. "
+            "Divergence = violation.",
+            "two element types, two groups, member sets GroupsDef!Sel, depth 3 (4 thorough)",
+            "TLC-generated operation histories replayed; abstract-set equality decided by TLC at every step", "§4 C27"),
 }
 
 NOT_APPLICABLE = {
